@@ -340,6 +340,7 @@ func simpleDefaults(s Schema) bool {
 }
 
 type engineOpts struct {
+	inspected  bool // the desired state is the InspectSchema of a real database created from the spec (numeric fk symbols, ...), not a graph built from the spec
 	updown     bool // after the up run, execute the reverse statements of a reversible plan (mode updown)
 	file, fk   bool
 	rows       []rowSpec
@@ -372,6 +373,16 @@ func (c *ctx) engineCase(a, b Schema, desc string, o engineOpts) {
 	defer l.Close()
 	var obs []string
 	add := func(s string) { obs = append(obs, s) }
+	desired := func() *schema.Schema {
+		if !o.inspected {
+			return build("sqlite", b)
+		}
+		g, err := inspectedDesired(b)
+		if err != nil {
+			panic(fmt.Sprintf("harness: desired spec is not valid SQLite: %v", err))
+		}
+		return g
+	}
 	fromSpec := build("sqlite", a)
 	op := "E "
 	if o.updown {
@@ -384,7 +395,11 @@ func (c *ctx) engineCase(a, b Schema, desc string, o engineOpts) {
 			line += " " + hx(r.cols[i]) + " " + r.vals[i]
 		}
 	}
-	line += " " + tokCase(build("sqlite", b), b)
+	if o.inspected {
+		line += " " + tokCase(desired(), Schema{Name: b.Name})
+	} else {
+		line += " " + tokCase(build("sqlite", b), b)
+	}
 	finish := func() {
 		if o.withModel {
 			c.w.Case(id, line, obs)
@@ -421,7 +436,7 @@ func (c *ctx) engineCase(a, b Schema, desc string, o engineOpts) {
 		return
 	}
 	add("S0 ok")
-	ic := "input-class=" + classify(a, b) + "; "
+	ic := "input-class=" + classifyFor(a, b, o.inspected) + "; "
 	for _, r := range o.rows {
 		if err := l.exec(insertSQL(r, *a.table(r.table))); err != nil {
 			panic(fmt.Sprintf("harness: insert failed: %v (%s)", err, insertSQL(r, *a.table(r.table))))
@@ -440,7 +455,7 @@ func (c *ctx) engineCase(a, b Schema, desc string, o engineOpts) {
 		return
 	}
 	add("I0 " + tokObs(cur))
-	des := build("sqlite", b)
+	des := desired()
 	cs, derr, pan := diffReal(cur, des)
 	if pan != "" {
 		add("D panic")
@@ -496,7 +511,7 @@ func (c *ctx) engineCase(a, b Schema, desc string, o engineOpts) {
 	var fkv int
 	l.db.QueryRow("PRAGMA foreign_keys").Scan(&fkv)
 	add("FK1 " + strconv.Itoa(fkv))
-	cs2, derr2, _ := diffReal(after, build("sqlite", b))
+	cs2, derr2, _ := diffReal(after, desired())
 	add("D2 " + showSchemaChanges(cs2, derr2))
 	if trace {
 		fmt.Fprintln(os.Stderr, "  APPLY ERR:", aerr, " D2:", showSchemaChanges(cs2, derr2))
@@ -596,6 +611,12 @@ func runEngine(c *ctx) {
 	if c.thorough {
 		n = 6000
 	}
+	// unnamed foreign keys with an inspected desired state: the model's Normalize / fillConstName on numeric symbols
+	for i, fc := range fkGrid(c.thorough) {
+		if c.thorough || i%4 == 0 {
+			c.engineCase(fc.a, fc.b, fc.desc, engineOpts{inspected: true, file: i%8 == 0, fk: i%3 == 0, withModel: true})
+		}
+	}
 	// populated databases: generator restricted to defaults / unique indexes whose row effect the engine model evaluates
 	pg := &G{r: c.r, plain: true}
 	np := n / 4
@@ -666,6 +687,10 @@ func runOracle(c *ctx) {
 			}
 		}
 		c.engineCase(a, b, d, o)
+	}
+	// unnamed foreign keys, desired state as inspected (numeric symbols)
+	for i, fc := range fkGrid(c.thorough) {
+		c.engineCase(fc.a, fc.b, fc.desc, engineOpts{inspected: true, file: i%4 == 0, fk: i%2 == 0, viaAtlas: i%3 == 1})
 	}
 	// populated tables x a single edit of the ALTER path or of its border (what alterable() must send to the rebuild)
 	border := map[string]bool{"add-col-nonconst-default": true, "add-col-null": true, "add-col-notnull-default": true,
